@@ -25,7 +25,10 @@ static bool json_rt_equal(const MVal& x, const MVal* lit, const MVal& y, std::st
       long double v = strtold(lit->s.c_str(), nullptr);
       if (fabsl(v - (long double)x.f) > (long double)print_tol(x.f) * 1.0000001L) return fail("printed literal " + lit->s + " too far from stored value " + describe(x));
       double rel = significant_digits(lit->s) > 7 ? 1e-13 : 1e-6;
-      if (!kUseDouble) rel = 1e-6;
+      // C12's figures are stated for the default configuration; with 32-bit JsonFloat the
+      // 23-bit mantissa cannot hold every 7-digit literal (8388608..9999999 lose a digit),
+      // so that configuration is judged with 1e-5 (DESIGN.md don't-care 14)
+      if (!kUseDouble) rel = 1e-5;
       if (fabsl(got - v) > (long double)rel * fabsl(v) + 1e-320L) return fail("re-parsed " + describe(y) + " too far from literal " + lit->s);
       return true;
     }
@@ -80,7 +83,9 @@ void vf_run_case(Ctx& c, uint64_t index) {
   SpyAllocator sa;
   AJ::JsonDocument doc(&sa);
   BuildOpt bo; bo.rng = &r;
-  if (!build(doc.to<AJ::JsonVariant>(), model, bo) || doc.overflowed()) { c.violation("build-failed", "building the document through the API reported failure without allocation failure", wit); return; }
+  bool built = build(doc.to<AJ::JsonVariant>(), model, bo) && !doc.overflowed();
+  if (!built && !within_capacity(model)) { c.outcome("over-capacity"); return; }
+  if (!built) { c.violation("build-failed", "building the document through the API reported failure without allocation failure", wit); return; }
   MVal stored = stored_form(model);
   ExtractState es;
   MVal x0 = extract(doc, &es);
